@@ -1,9 +1,9 @@
 //! Verification-only entry points, compiled only with `--cfg astrolabe_verif`.
 //!
 //! They expose *inputs* the public API reads from the environment (the wall clock seen by
-//! [`CronSchedule`](crate::CronSchedule)), never internals.
+//! [`CronSchedule`](crate::CronSchedule), the bytes of `/etc/localtime`), never internals.
 
-use crate::DateTime;
+use crate::{local::timezone::TimeZone, DateTime};
 use std::cell::Cell;
 
 thread_local! {
@@ -22,4 +22,14 @@ pub fn clear_cron_now() {
 
 pub(crate) fn cron_now() -> Option<DateTime> {
     CRON_NOW.with(|c| c.get())
+}
+
+/// Parses caller-supplied TZif bytes and resolves the UTC offset for each Unix timestamp,
+/// exactly as `Offset::Local` does with `/etc/localtime` and the current time.
+pub fn tzif_offsets(bytes: &[u8], timestamps: &[i64]) -> Result<Vec<i32>, String> {
+    let time_zone = TimeZone::from_tzif(bytes).map_err(|e| e.to_string())?;
+    Ok(timestamps
+        .iter()
+        .map(|&timestamp| time_zone.to_local_time_type(timestamp).utoff)
+        .collect())
 }
